@@ -228,6 +228,80 @@ class Undefined(Exception):
     """The template itself is not applicable to this record (Python's format() refuses it)."""
 
 
+# ---- the documented `defang` format spec of string / uri / net.ipaddress fields ----------------------------
+DEFANG_SCHEMES = (("http://", "hxxp://"), ("https://", "hxxps://"), ("ftp://", "fxp://"), ("file://", "fxle://"), ("ldap://", "ldxp://"),
+                  ("ldaps://", "ldxps://"))
+
+
+def _word(ch):
+    return ch == "_" or ch.isalnum()
+
+
+def ref_defang(value):
+    """Reference of "make URLs or ip addresses unclickable", written without regular expressions:
+    1. a scheme at the very start of the value (any letter case; with or without a dot anywhere in the value) is rewritten:
+       http->hxxp, https->hxxps, ftp->fxp, file->fxle, ldap->ldxp, ldaps->ldxps (result in lower case);
+    2. every dot that stands between two word runs whose right-hand run is directly followed by the end of the value, '/' or ':'
+       becomes '[.]' (host names, the last label boundary of each host / path segment);
+    3. in what then still reads digits.digits.digits.digits the last of those three dots becomes '[.]'."""
+    v = str(value)
+    for old, new in DEFANG_SCHEMES:
+        if v[:len(old)].lower() == old:
+            v = new + v[len(old):]
+    out, i, n = [], 0, len(v)
+    while i < n:
+        ch = v[i]
+        if ch == "." and i > 0 and _word(v[i - 1]):
+            j = i + 1
+            while j < n and _word(v[j]):
+                j += 1
+            if j > i + 1 and (j == n or v[j] in "/:" or (j == n - 1 and v[j] == "\n")):  # a final line feed counts as the end
+                out.append("[.]")
+                i += 1
+                continue
+        out.append(ch)
+        i += 1
+    v = "".join(out)
+    out, i, n = [], 0, len(v)
+    while i < n:
+        if v[i].isdecimal() and (i == 0 or not v[i - 1].isdecimal()):
+            j, dots, ok = i, [], True
+            for part in range(4):
+                k = j
+                while k < n and v[k].isdecimal():
+                    k += 1
+                if k == j:
+                    ok = False
+                    break
+                j = k
+                if part < 3:
+                    if j < n and v[j] == ".":
+                        dots.append(j)
+                        j += 1
+                    else:
+                        ok = False
+                        break
+            if ok:
+                out.append(v[i:dots[2]] + "[.]" + v[dots[2] + 1:j])
+                i = j
+                continue
+            # a later start inside the same digit run cannot match either: copy the run
+            k = i
+            while k < n and v[k].isdecimal():
+                k += 1
+            out.append(v[i:k])
+            i = k
+            continue
+        out.append(v[i])
+        i += 1
+    return "".join(out)
+
+
+def _has_defang(value):
+    t = type(value)
+    return any(c.__name__ in ("string", "uri", "ipaddress") and c.__module__.startswith("flow.record.fieldtypes") for c in t.__mro__)
+
+
 class _ReferenceFormatter(string.Formatter):
     """The stdlib's pure-Python format-string engine over a mapping whose missing keys read as '{key}':
     the first component of a replacement field is looked up in the mapping, then attribute / index access, conversion,
@@ -243,6 +317,11 @@ class _ReferenceFormatter(string.Formatter):
 
     def check_unused_args(self, used_args, args, kwargs):
         pass
+
+    def format_field(self, value, format_spec):
+        if format_spec == "defang" and _has_defang(value):
+            return ref_defang(str(value))
+        return format(value, format_spec)
 
 
 def apply_template(template, values):
@@ -318,6 +397,24 @@ def selftest(n=3000, seed=1):
     tpl = "{p.name}|{p.parent!r}|{l[1]}|{n:{f}>{w}}|{nope[0]}{nope[1]}|{l[0]:>{w}}"
     assert apply_template(tpl, vals) == tpl.format_map(type("D", (dict,), {"__missing__": lambda s, k: "{" + k + "}"})(vals))
     assert apply_template(tpl, vals) == "b.txt|PurePosixPath('/a')|y|*****5|{n|     x"
+    import re
+
+    def documented(value):  # the rule table of the pinned revision, as documentation of the spec
+        for pat, new in (("^http://", "hxxp://"), ("^https://", "hxxps://"), ("^ftp://", "fxp://"), ("^file://", "fxle://"), ("^ldap://", "ldxp://"),
+                         ("^ldaps://", "ldxps://"), (r"(\w+)\.(\w+)($|/|:)", r"\1[.]\2\3"), (r"(\d+)\.(\d+)\.(\d+)\.(\d+)", r"\1.\2.\3[.]\4")):
+            value = re.sub(pat, new, value, flags=re.IGNORECASE)
+        return value
+
+    rng = random.Random(7)
+    toks = ["http://", "HTTPS://", "ldap://", "file://", "ftp://", "ldaps://", "localhost", "dc01", "www", ".", ".", "com", "10", "0", "1", "255", "/", ":",
+            "8080", "[::1]", " ", ",", "é", "_", "a.b", "1.2.3.4", "x", ")", "\n"]
+    for _ in range(4000):
+        v = "".join(rng.choice(toks) for _ in range(rng.randint(0, 9)))
+        assert ref_defang(v) == documented(v), (v, ref_defang(v), documented(v))
+    for v, want in (("http://localhost:8080/admin", "hxxp://localhost:8080/admin"), ("https://[::1]/index", "hxxps://[::1]/index"),
+                    ("HTTP://intranet/", "hxxp://intranet/"), ("file:///etc/passwd", "fxle:///etc/passwd"), ("www.example.com/a", "www.example[.]com/a"),
+                    ("10.0.0.1, x", "10.0.0[.]1, x"), ("plain text", "plain text")):
+        assert ref_defang(v) == want, (v, ref_defang(v))
     for bad in ("{nope.attr}", "{l[7]}", "{n:{nope}}", "{}"):
         try:
             apply_template(bad, vals)
